@@ -6,6 +6,7 @@ CONSTANTS
   Mirror = FALSE
   MaxLevel = 3
   Small = TRUE
+  Avoid = FALSE
   SimK = 0
   Acts = {"dset", "rebind", "ddel", "batch", "ldel"}
 CONSTRAINT LevelBound
